@@ -6,6 +6,7 @@ ctx.check and never raises into cryoCAT, so a violation cannot change the execut
 import collections
 import functools
 import inspect
+import os
 import sys
 
 
@@ -27,9 +28,16 @@ def wrap(ctx, owner, attr, name, post, applicable=None, snapshot=None):
     sig = inspect.signature(fn)
     ctx.declare(name)
 
+    bypass_internal = bool(os.environ.get("VERIF_BYPASS_INTERNAL"))
+
     @functools.wraps(fn)
     def monitored(*a, **k):
         if not ctx.active:
+            return fn(*a, **k)
+        if bypass_internal and str(sys._getframe(1).f_globals.get("__name__", "")).startswith("cryocat"):
+            # self-audit mode (tools/audit_call_structure.sh): behave as if cryoCAT's own code reached this function through a
+            # private name - the monitor sees only the calls made from outside the package.  A check that turns inconclusive in
+            # this mode has a floor that depends on cryoCAT's internal call structure.
             return fn(*a, **k)
         A = OLD = None
         judged = False
